@@ -402,7 +402,12 @@ def targeted_programs(tier, flags):
 
     def add(name, src):
         out.append((name, src.encode("latin1") if isinstance(src, str) else src))
-    for n in (99, 100, 101, 150):
+    lims = C01_gen.limits_lenient()
+    for n in sorted({lims["break"] + d for d in (-1, 0, 1, 2)} | {lims["continue"] + d for d in (-1, 0, 1, 2)} | {150}):
+        add("continues-flat-%d" % n, "main:\nwhile (local.a) {\n" + "continue\n" * n + "local.b = 1\n}\nend\n")
+        add("continues-split-%d" % n, "main:\nwhile (local.a) {\n" + "if (local.b) { continue }\n" * 60 + "while (local.c) {\n" + "if (local.b) { continue }\n" * (n - 60) + "local.d = 1\n}\n}\nend\n")
+        add("continues-in-switch-%d" % n, "main:\nwhile (local.a) {\nswitch (local.b) {\ncase 1:\n" + "if (local.b) { continue }\n" * n + "break\n}\n}\nend\n")
+        add("breaks-split-%d" % n, "main:\nwhile (local.a) {\n" + "if (local.b) { break }\n" * 60 + "while (local.c) {\n" + "if (local.b) { break }\n" * (n - 60) + "local.d = 1\n}\n}\nend\n")
         add("breaks-%d" % n, "main:\nwhile (local.a) {\n" + "if (local.b) { break }\n" * n + "}\nend\n")
         add("continues-%d" % n, "main:\nwhile (local.a) {\n" + "if (local.b) { continue }\n" * n + "}\nend\n")
         add("switch-breaks-%d" % n, "main:\nswitch (local.a) {\n" + "".join("case %d:\nbreak\n" % i for i in range(n)) + "}\nend\n")
@@ -989,16 +994,26 @@ def gen_cases(tier, seed, flags):
     sk = []
     for tk in skel_enumerate(4 if quick else 5):
         sk.append((tk, "skeleton-exhaustive"))
-    for n in (98, 99, 100, 101, 102):
-        sk.append((["W("] + ["b"] * n + [")"], "skeleton-limit"))
-        sk.append((["W("] + ["c"] * n + [")"], "skeleton-limit"))
-        sk.append((["D("] + ["b"] * n + ["c"] * n + [")"], "skeleton-limit"))
-        sk.append((["S("] + ["b"] * n + [")"], "skeleton-limit"))
-        sk.append((["W(", "S("] + ["b"] * n + [")", "b", "c", ")"], "skeleton-limit"))
-        sk.append((["W("] + ["b"] * (n - 50) + ["W("] + ["b"] * 50 + ["c"] * 3 + [")", "b", ")"], "skeleton-limit"))
-        sk.append((["W("] + ["b"] * 60 + ["W("] + ["b"] * (n - 60) + [")", "c", ")"], "skeleton-limit"))
-        sk.append((["W("] + ["I(", "b", ")"] * n + ["I(", "c", ")"] * (n // 2) + [")"], "skeleton-limit"))
-        sk.append((["W("] + ["T(", "b", "|", "f", ")"] * (n // 2) + ["b"] * (n - n // 2) + [")"], "skeleton-limit"))
+    lims = C01_gen.limits_lenient()
+    for j, L in ((("b", "c"), lims["break"]), (("c", "b"), lims["continue"])):
+        x, y = j                                  # x: the jump whose table is at its limit, y: the other one
+        for n in (L - 2, L - 1, L, L + 1, L + 2):
+            for tail in ([], ["f"], [y], ["W(", ")"]):        # what follows the last recorded jump
+                sk.append((["W("] + [x] * n + tail + [")"], "skeleton-limit"))
+            sk.append((["D("] + [x] * n + [y] * n + [")"], "skeleton-limit"))
+            sk.append((["D("] + [x] * n + ["f", ")", "f"], "skeleton-limit"))
+            sk.append((["W(", "S("] + [x] * n + [")", "b", "c", ")"], "skeleton-limit"))                  # inside a switch in the loop
+            sk.append((["W(", "S(", "f", ")"] + [x] * n + ["f", ")"], "skeleton-limit"))
+            sk.append((["W("] + [x] * (n - 50) + ["W("] + [x] * 50 + [y] * 3 + [")", x, ")"], "skeleton-limit"))   # split over nested loops
+            sk.append((["W("] + [x] * 60 + ["W("] + [x] * (n - 60) + ["f", ")", y, ")"], "skeleton-limit"))        # 60 outer + (n-60) inner pending at once
+            sk.append((["W("] + [x] * 60 + ["D("] + [x] * (n - 60) + [")", "f", ")"], "skeleton-limit"))
+            sk.append((["W("] + [x] * 30 + ["W("] + [x] * 30 + ["W("] + [x] * (n - 60) + ["f", ")", ")", ")"], "skeleton-limit"))
+            sk.append((["W("] + ["I(", x, ")"] * n + ["I(", y, ")"] * (n // 2) + [")"], "skeleton-limit"))
+            sk.append((["W("] + ["T(", x, "|", "f", ")"] * (n // 2) + [x] * (n - n // 2) + ["f", ")"], "skeleton-limit"))
+            sk.append((["W("] + ["T(", "f", "|", x, ")"] * (n // 2) + [x] * (n - n // 2) + ["f", ")"], "skeleton-limit"))
+            if x == "b":
+                sk.append((["S("] + ["b"] * n + [")"], "skeleton-limit"))
+                sk.append((["S("] + ["b"] * (n - 1) + ["f", ")", "f"], "skeleton-limit"))                     # the switch's own exit jump counts
     for dd in range(0, 9):
         sk.append((["S("] + ["I("] * dd + ["f"] + [")"] * dd + [")"], "skeleton-depth"))
         sk.append((["S("] + ["W("] * dd + ["b"] + [")"] * dd + [")"], "skeleton-depth"))
@@ -1014,7 +1029,11 @@ def gen_cases(tier, seed, flags):
         byo.setdefault(o, []).append(tk)
     for o, lst in byo.items():
         for i in range(0, len(lst), 40):
-            cases.append(XCase(cid("k"), [("K", tk) for tk in lst[i:i + 40]], o))
+            c = XCase(cid("k"), [("K", tk) for tk in lst[i:i + 40]], o)
+            if o == "skeleton-limit":
+                cases.insert(0, c)            # the limit boundaries are searched first
+            else:
+                cases.append(c)
 
     # ---- (C) arbitrary texts
     texts = []           # (origin, name, bytes)
@@ -1163,8 +1182,10 @@ def known_of(stderr):
 
 
 def judge(case, ilines, mlines):
-    """-> list of problems (kind, why) for a case that completed"""
+    """-> list of problems (kind, why) for a case that completed; mlines None = no model available (implementation only)"""
     probs = []
+    impl_only = mlines is None
+    mlines = mlines or []
     m = [l for l in mlines if l.startswith("m ")]
     s = [l for l in mlines if l.startswith("s ")]
     ic = [canon_impl_line(l) for l in ilines]
@@ -1181,6 +1202,8 @@ def judge(case, ilines, mlines):
                 probs.append(("outcome-class", "op %d: compiling the text gave outcome class `%s` (allowed: ok | parse | compile:*)" % (k, " ".join(w[2:])), k))
             elif extra:
                 probs.append(("outcome-" + extra[0], "op %d: outcome `%s`" % (k, " ".join(w[2:])), k))
+    if impl_only:
+        return probs
     # (b) model vs implementation, line by line
     n = min(len(m), len(ic))
     for k in range(n):
@@ -1221,6 +1244,8 @@ def evaluate(exe, drv, case):
     if case.id in icr:
         return [], icr[case.id], icr[case.id].get("partial", []), []
     il = io.get(case.id, [])
+    if drv is None:
+        return judge(case, il, None), None, il, []
     mo, _ = run_model(drv, [case], {case.id: il})
     ml = mo.get(case.id, [])
     return judge(case, il, ml), None, il, ml
@@ -1251,16 +1276,27 @@ def check(res, tier, seed):
         "re-request, sentinel run, fresh compile+run, state of the text's script (accepted texts are not executed here), recompile=true of the same name from a valid source + run; at the end of every engine Reset(), sentinel absent, compiled and run again, and the context is destroyed inside the watched region.  non-trivial = an arbitrary text whose compilation finished in an allowed class with all six probes agreeing with the model, "
         "or a history/skeleton of >= 3 operations/symbols. ")
     # ---- translator
+    tie_broken = None
     try:
         changed, gtxt = C01_gen.write_generated()
         res.cov["generated"] = {"file": "coq/C01/Generated.v", "rewritten": changed,
                                 "limits": re.findall(r"Definition (\w+) : N := (\d+)", gtxt)}
     except C01_gen.TranslatorError as ex:
-        res.violation({"property": CID, "kind": "proof-broken", "broken": "translator props/C01_gen.py: the source no longer matches the modelled template",
-                       "why": str(ex)[-3000:]}, no_input=True)
-        return
-    pst = vlib.proof_stage(res, "C01", extra_targets=["C01/Extract.vo"], dirs=["Base", "C01"])
-    drv = vlib.ocaml_driver("C01")
+        # the tie is broken: the source no longer has the modelled shape.  Search for a concrete failing input all the same:
+        # against the model of the LAST translated source when coq/C01/Generated.v is still there (the changed code then
+        # disagrees with it at the changed boundary), otherwise on the implementation alone (crash / hang / outcome class)
+        tie_broken = str(ex)[-3000:]
+        res.cov["generated"] = {"file": "coq/C01/Generated.v", "translator_error": tie_broken[:600]}
+    drv = None
+    pst = {"ok": True}
+    if tie_broken is None or os.path.exists(os.path.join(vlib.COQ, "C01", "Generated.v")):
+        try:
+            pst = vlib.proof_stage(res, "C01", extra_targets=["C01/Extract.vo"], dirs=["Base", "C01"])
+            drv = vlib.ocaml_driver("C01")
+        except vlib.BuildError:
+            if tie_broken is None:
+                raise
+            drv = None
     exe = vlib.build_harness("C01", ["harness/C01.cpp"], "asan", use_lib=True)
 
     cases = gen_cases(tier, seed, flags)
@@ -1282,14 +1318,16 @@ def check(res, tier, seed):
         chunk = cases[i:i + B]
         io, icr = run_impl(exe, chunk)
         done = [c for c in chunk if c.id in io]
-        mo, mstat = run_model(drv, done, io)
+        mo, mstat = run_model(drv, done, io) if drv else ({c.id: None for c in done}, None)
         for c in chunk:
             if c.id in icr:
                 bad.append((c, crash_kind(icr[c.id]), None, icr[c.id]))
                 continue
             il = io.get(c.id, [])
             ml = mo.get(c.id)
-            if ml is None:
+            if ml is None and drv is None:
+                ml = None
+            elif ml is None:
                 bad.append((c, "model-crash", "the extracted model produced no output for the case: %s" % (mstat,), None))
                 continue
             probs = judge(c, il, ml)
@@ -1340,6 +1378,18 @@ def check(res, tier, seed):
             if not concrete:
                 rec["broken"] = "theorem / extracted model of unit C01 (see why)"
             res.violation(rec, no_input=not concrete)
+    if tie_broken is not None:
+        concrete = [p_ for p_, ni in res.violations if not ni]
+        for p_ in concrete:                      # say in the replay why the search ran
+            try:
+                r_ = json.load(open(p_))
+                r_["tie_broken"] = tie_broken[:1500]
+                json.dump(r_, open(p_, "w"), indent=1, sort_keys=True)
+            except Exception:
+                pass
+        if not concrete:
+            res.violation({"property": CID, "kind": "proof-broken", "broken": "translator props/C01_gen.py: the source no longer matches the modelled template",
+                           "why": tie_broken}, no_input=True)
     if not pst["ok"] and not any(not ni for _, ni in res.violations):
         res.violation({"property": CID, "kind": "proof-broken", "broken": "Coq build of C01/Properties.vo", "hygiene": pst.get("hygiene"),
                        "log": pst.get("build_log", "")[-3000:] + str(pst.get("props", {}).get("log", ""))[-3000:]}, no_input=True)
@@ -1395,10 +1445,17 @@ def minimise(exe, drv, case, kind, why, cr, seed):
         return rec
     # histories / skeletons: shrink the op list
     ops = case.ops
-    try:
-        ops = vlib.ddmin(list(ops), lambda sub: same(XCase("s", sub, "shrink"))[0], max_runs=80)
-    except Exception:
-        pass
+    if ops and all(o[0] == "K" for o in ops):
+        # independent skeletons: the smallest one that fails alone
+        for o in sorted(ops, key=lambda o: len(o[1])):
+            if same(XCase("s", [o], "shrink", dev=case.dev))[0]:
+                ops = [o]
+                break
+    else:
+        try:
+            ops = vlib.ddmin(list(ops), lambda sub: same(XCase("s", sub, "shrink", dev=case.dev))[0], max_runs=80)
+        except Exception:
+            pass
     if len(ops) == 1 and ops[0][0] == "K":
         try:
             ops = [("K", skel_shrink(list(ops[0][1]), lambda sub: same(XCase("s", [("K", sub)], "shrink"))[0]))]
@@ -1447,10 +1504,13 @@ def replay(path):
     try:
         C01_gen.write_generated()
     except C01_gen.TranslatorError as ex:
-        print("translator failed: %s" % ex)
-        return 1
-    ok, log = vlib.coq_make(["C01/Extract.vo"])
-    drv = vlib.ocaml_driver("C01")
+        print("translator: the source no longer matches the modelled template (%s); replaying against the last translated model" % str(ex)[:200])
+    drv = None
+    try:
+        ok, log = vlib.coq_make(["C01/Extract.vo"])
+        drv = vlib.ocaml_driver("C01")
+    except vlib.BuildError:
+        print("no model available: implementation only")
     exe = vlib.build_harness("C01", ["harness/C01.cpp"], "asan", use_lib=True)
     c = XCase.from_json(rec["case"])
     probs, cr, il, ml = evaluate(exe, drv, c)
